@@ -109,7 +109,13 @@ func topicInit(t *Topic, join *ClientComMessage, h *Hub) {
 	}
 
 	if t.isDeleted() {
-		// Someone deleted the topic while we were trying to create it.
+		// Someone deleted the topic while we were trying to create it. The topic's run loop will not be
+		// started: answer the request and dispose of everything queued for the topic meanwhile, including
+		// the stop request of whoever is deleting it and waits for a confirmation.
+		if join.sess != nil {
+			join.sess.queueOut(ErrLockedExplicitTs(join.Id, join.Original, timestamp, join.Timestamp))
+		}
+		t.rejectPendingRequests(h)
 		return
 	}
 
